@@ -331,7 +331,27 @@ func mustHex(s string) []byte {
 	return b
 }
 
-func (P) Exec(line string) string {
+// Exec runs one case with a watchdog: a case that panics answers "panic", one that does not come back within
+// two minutes answers "timeout" (the goroutine is abandoned); either disagrees with the model's answer.
+func (p P) Exec(line string) string {
+	ch := make(chan string, 1)
+	go func() {
+		defer func() {
+			if r := recover(); r != nil {
+				ch <- "panic"
+			}
+		}()
+		ch <- p.exec(line)
+	}()
+	select {
+	case s := <-ch:
+		return s
+	case <-time.After(2 * time.Minute):
+		return "timeout"
+	}
+}
+
+func (P) exec(line string) string {
 	f := strings.Fields(line)
 	if len(f) < 2 || f[0] != "C08" {
 		return "bad-op"
@@ -486,6 +506,8 @@ func (P) Exec(line string) string {
 		return execUtx(f[2], mustHex(f[3]), strings.Split(f[4], ","))
 	case "encrefused":
 		return "refused"
+	case "gencrash":
+		return "generator-crashed"
 	case "txbytes":
 		t, err := btcutil.NewTxFromBytes(mustHex(f[2]))
 		if err != nil {
